@@ -19,7 +19,7 @@ func runC06(c *sim.Ctx) { runMWorld(c, "C06") }
 
 // ---------------------------------------------------------------- C07 (a): cross product
 
-var c07States = []string{"UNLOCKED", "SHARED", "RESERVED-clean", "RESERVED-dirty", "PENDING", "EXCLUSIVE-spilled", "EXCLUSIVE-begin"}
+var c07States = []string{"UNLOCKED", "SHARED", "RESERVED-clean", "RESERVED-dirty", "PENDING", "EXCLUSIVE-spilled", "EXCLUSIVE-begin", "RESERVED-dirty-syncoff"}
 var c07Journal = []string{"DELETE", "TRUNCATE", "PERSIST"}
 var c07Ops = []string{"select", "selectdone", "rowid", "ixselect", "ixeq", "pk", "columns", "tscan", "iscan"}
 var c07Ages = []string{"fresh", "long-lived"}
@@ -92,6 +92,15 @@ func runC07Cell(c *sim.Ctx, cell int) {
 	case "RESERVED-dirty":
 		ex(W, "w", "BEGIN IMMEDIATE")
 		ex(W, "w", "UPDATE t SET v = 'UNCOMMITTED-' || id, n = 99 WHERE id <= 3")
+	case "RESERVED-dirty-syncoff":
+		// with synchronous=OFF SQLite writes a complete journal header (magic, record
+		// count -1) while it holds only RESERVED: a hot-looking journal of a LIVE writer
+		ex(W, "w", "PRAGMA synchronous=OFF")
+		ex(W, "w", "BEGIN IMMEDIATE")
+		ex(W, "w", "UPDATE t SET v = 'UNCOMMITTED-' || id, n = 99 WHERE id <= 3")
+		if jb, err := os.ReadFile(path + "-journal"); err == nil && len(jb) >= 8 && jb[0] == 0xd9 && jb[1] == 0xd5 {
+			c.Probe("live-writer-with-hot-looking-journal")
+		}
 	case "PENDING":
 		if err := R.Open("r", path); err != nil {
 			c.Troublef("open r: %v", err)
@@ -123,7 +132,7 @@ func runC07Cell(c *sim.Ctx, cell int) {
 	blocked, why := v.blocksReaders(-1)
 	c.Log.Add("K", "locks", "writer=%s blocked=%v %s", wstate, blocked, why)
 	c.Probe("writer-parked-" + wstate)
-	want := map[string]string{"UNLOCKED": "UNLOCKED", "SHARED": "SHARED", "RESERVED-clean": "RESERVED", "RESERVED-dirty": "RESERVED", "PENDING": "PENDING", "EXCLUSIVE-spilled": "EXCLUSIVE", "EXCLUSIVE-begin": "EXCLUSIVE"}[state]
+	want := map[string]string{"UNLOCKED": "UNLOCKED", "SHARED": "SHARED", "RESERVED-clean": "RESERVED", "RESERVED-dirty": "RESERVED", "RESERVED-dirty-syncoff": "RESERVED", "PENDING": "PENDING", "EXCLUSIVE-spilled": "EXCLUSIVE", "EXCLUSIVE-begin": "EXCLUSIVE"}[state]
 	if wstate != want {
 		c.Troublef("writer is in %s, scenario wanted %s (kernel: %v)", wstate, want, fmtLocks(v))
 	}
@@ -253,13 +262,13 @@ func init() {
 	})
 	sim.Register(&sim.Prop{
 		ID: "C07", Engine: "E-WORLD-MP", Level: "exploration", Fn: runC07, NewEnv: NewMEnv,
-		Runs: map[string]int{"quick": 378 + 2000, "thorough": 378 + 60000},
-		Rule: "runs 0..377 are the COMPLETE cross product writer state {UNLOCKED, SHARED, RESERVED-clean, RESERVED-dirty+journal, PENDING, EXCLUSIVE-spilled, EXCLUSIVE-begin} x journal mode {DELETE, TRUNCATE, PERSIST} x read operation (9) x handle age {fresh, long-lived with warm caches}, each with a real SQLite connection parked in the state and the state confirmed in the kernel's lock table; the remaining runs are seeded multi-process schedules as for C06 (without same-process siblings) in which every read is judged at its lock event: another process holding PENDING or EXCLUSIVE => error and no callback, otherwise nil error and exactly the rows of the version committed at that moment (uncommitted rows are distinguishable by content); evaluations = operations judged; distinct = distinct event logs",
+		Runs: map[string]int{"quick": 432 + 2000, "thorough": 432 + 60000},
+		Rule: "runs 0..431 are the COMPLETE cross product writer state {UNLOCKED, SHARED, RESERVED-clean, RESERVED-dirty+journal, RESERVED-dirty with synchronous=OFF (complete journal header on disk while the writer lives), PENDING, EXCLUSIVE-spilled, EXCLUSIVE-begin} x journal mode {DELETE, TRUNCATE, PERSIST} x read operation (9) x handle age {fresh, long-lived with warm caches}, each with a real SQLite connection parked in the state and the state confirmed in the kernel's lock table; the remaining runs are seeded multi-process schedules as for C06 (without same-process siblings) in which every read is judged at its lock event: another process holding PENDING or EXCLUSIVE => error and no callback, otherwise nil error and exactly the rows of the version committed at that moment (uncommitted rows are distinguishable by content); evaluations = operations judged; distinct = distinct event logs",
 		Real: realM, Stub: []string{"none"},
 		Assumptions: []string{"ground truth of the writer's lock state is the kernel table, not the harness's belief", "the puppet-writer tier (parked inside a commit at every syscall boundary) is covered by C09's engine, not here"},
 		MaxRunSecs: 300,
 		Vacuity: func(st map[string]int64, runs int, tier string) error {
-			for _, p := range []string{"writer-parked-UNLOCKED", "writer-parked-SHARED", "writer-parked-RESERVED", "writer-parked-PENDING", "writer-parked-EXCLUSIVE", "read-under-RESERVED", "lock-fail-under-PENDING", "lock-fail-under-EXCLUSIVE", "read-verified"} {
+			for _, p := range []string{"writer-parked-UNLOCKED", "writer-parked-SHARED", "writer-parked-RESERVED", "writer-parked-PENDING", "writer-parked-EXCLUSIVE", "read-under-RESERVED", "lock-fail-under-PENDING", "lock-fail-under-EXCLUSIVE", "read-verified", "live-writer-with-hot-looking-journal"} {
 				if st["probe."+p] == 0 {
 					return fmt.Errorf("reach probe %q is zero", p)
 				}
